@@ -222,7 +222,7 @@ func genFuzzCase(r *rand.Rand, bias string) FuzzCase {
 			pm = 0.3
 		}
 		if chance(r, pm) {
-			st.Method = pick(r, []string{"POST", "PUT", "DELETE", "PATCH", "HEAD", "OPTIONS", "PROPPATCH", "FOO", "PURGE", "MKCOL"})
+			st.Method = pick(r, []string{"POST", "PUT", "DELETE", "PATCH", "HEAD", "OPTIONS", "PROPPATCH", "FOO", "PURGE", "MKCOL", "get", "Report"})
 		}
 		h := map[string][]string{}
 		if chance(r, pcc) {
@@ -231,7 +231,9 @@ func genFuzzCase(r *rand.Rand, bias string) FuzzCase {
 				cc += ", only-if-cached"
 			}
 			h["Cache-Control"] = []string{cc}
-			if parts := strings.Split(cc, ", "); len(parts) > 1 && chance(r, 0.3) {
+			if chance(r, 0.12) {
+				h["Cache-Control"] = []string{pick(r, []string{", " + cc, strings.Replace(cc, ", ", ",, ", 1), "x=1,, " + cc, cc + ","})}
+			} else if parts := strings.Split(cc, ", "); len(parts) > 1 && chance(r, 0.3) {
 				h["Cache-Control"] = parts // one directive per field line
 			} else if chance(r, 0.1) {
 				h["Cache-Control"] = []string{"x-ext=1", cc}
